@@ -199,7 +199,28 @@ func TestC16(t *testing.T) {
 			layout{"one-object stride=1 " + ord, []lk.Op{{Kind: "createpool", Pool: "p", Key: "k:" + ord, Stride: 1}, ld("p", "main", all+` {k:2,v:"z"} {k:3,v:"z"}`)}},
 		)
 	}
+	// objects that span several seek-index frames with a partial last frame: ten to
+	// twelve records per object and strides of a few records
+	var ten strings.Builder
+	for i := 1; i <= 10; i++ {
+		fmt.Fprintf(&ten, `{k:%d,v:"%s"} `, i, []string{"x", "y"}[i%2])
+	}
+	for _, ord := range []string{"asc", "desc"} {
+		for _, stride := range []int{4, 16, 40} {
+			layouts = append(layouts,
+				layout{fmt.Sprintf("ten-keys-one-object stride=%d %s", stride, ord), []lk.Op{{Kind: "createpool", Pool: "p", Key: "k:" + ord, Stride: stride}, ld("p", "main", ten.String())}},
+				layout{fmt.Sprintf("two-interleaved-objects stride=%d %s", stride, ord), []lk.Op{{Kind: "createpool", Pool: "p", Key: "k:" + ord, Stride: stride},
+					ld("p", "main", `{k:1,v:"x"} {k:3,v:"y"} {k:5,v:"x"} {k:7,v:"y"} {k:9,v:"x"} {k:2.5,v:"y"} {k:1,v:"y"}`), ld("p", "main", `{k:2,v:"x"} {k:4,v:"y"} {k:6,v:"x"} {k:8,v:"y"} {k:10,v:"x"} {k:3,v:"x"} {k:2,v:"y"}`)}},
+			)
+		}
+	}
 	e2ePreds := c16Atoms()
+	for _, c := range []string{"0", "5", "9", "10", "11"} {
+		for _, op := range []string{"==", "<", "<=", ">", ">="} {
+			e2ePreds = append(e2ePreds, "k"+op+c, c+op+"k")
+		}
+	}
+	e2ePreds = append(e2ePreds, "k>=2 and k<=3", "k>3 and k<9", "k<2 or k>9", "k>=9 and k<=10", "k>=1 and k<2")
 	for _, a := range c16Atoms() {
 		e2ePreds = append(e2ePreds, "not ("+a+")", a+` and v=="x"`, a+` or v=="x"`)
 	}
@@ -301,7 +322,7 @@ func TestC16(t *testing.T) {
 	run.Set("end_to_end_cases", e2e)
 	run.Sample(map[string]any{"part": "end to end", "layouts": len(layouts), "predicates": len(e2ePreds), "example": e2ePreds[len(e2ePreds)/3]})
 	run.Set("exhaustive", true)
-	run.Set("rule", "pruner level: every predicate of depth <= 2 over atoms {k op c, c op k} (op in ==,!=,<,<=,>,>=; c in {1,2,2.5,3,\"a\",true,null}) with and/or/not and a non-key atom (quick: every sixth atom pair; thorough: all) on an asc and a desc pool: the optimizer's real KeyPruner expression is evaluated by the real kernel on every (min,max) range over the domain, the real filter on every key of the domain (and a missing key); violation iff the pruner fires on a range that contains a key whose value satisfies the predicate. End to end: every atom (+ negation, and/or with a non-key predicate; thorough also atom pairs) x 6 pool layouts (one value per object; three overlapping objects; one object; seek stride 1 byte; asc/desc): optimized (parallelism 1 and 2) vs unoptimized plan, and delete-where vs per-value evaluation")
+	run.Set("rule", "pruner level: every predicate of depth <= 2 over atoms {k op c, c op k} (op in ==,!=,<,<=,>,>=; c in {1,2,2.5,3,\"a\",true,null}) with and/or/not and a non-key atom (quick: every sixth atom pair; thorough: all) on an asc and a desc pool: the optimizer's real KeyPruner expression is evaluated by the real kernel on every (min,max) range over the domain, the real filter on every key of the domain (and a missing key); violation iff the pruner fires on a range that contains a key whose value satisfies the predicate. End to end: every atom (+ negation, and/or with a non-key predicate; thorough also atom pairs) and key comparisons with constants 0,5,9,10,11 and five bounded ranges x 18 pool layouts (one value per object; three overlapping objects; one object, all with seek stride 1 byte; one ten-key object and two interleaved objects with seek strides 4, 16 and 40 bytes so that objects span several seek frames with a partial last frame; asc/desc): optimized (parallelism 1 and 2) vs unoptimized plan, and delete-where vs per-value evaluation")
 	run.Assume("literals and keys range over a 7-value cross-type domain; randomly generated pools and filters are outside this technique")
 }
 
